@@ -357,6 +357,45 @@ theorem C10_shutdown_built_witness :
     (runOps ExecH.Cfg.pinned (St.init [.live]) ops).2 = [.future, .ok, .future] := by
   decide
 
+/-! ## (e) the executor run is the local run, or it fails visibly -/
+
+/-- For every job, node and outcome of the executor (ran to its end / cancelled before it started / lost): the
+done-callback leaves the node not running, and either the job ran and the node is what `finish` makes of it, or
+the node is marked failed with its inputs and outputs untouched — never a normal return around outputs that
+belong to other inputs. -/
+theorem C10_visible_or_equal (cfg : Cfg) (fails : Nat → Bool) (oc : Outcome) (job : Job) (n n' : Node)
+    (h : finishO cfg fails false oc job n = some n') :
+    (oc = .done ∧ finish cfg fails job n = some n') ∨
+    (n'.own.failed = true ∧ n'.own.running = false ∧ n'.own.ins = n.own.ins ∧ n'.own.out = n.own.out ∧
+      n'.kids = n.kids) := by
+  cases oc with
+  | done => exact Or.inl ⟨rfl, h⟩
+  | cancelled =>
+    simp only [finishO, Bool.false_eq_true, if_false, Option.some.injEq] at h
+    subst h; cases n <;> exact Or.inr ⟨rfl, rfl, rfl, rfl, rfl⟩
+  | lost =>
+    simp only [finishO, Option.some.injEq] at h
+    subst h; cases n <;> exact Or.inr ⟨rfl, rfl, rfl, rfl, rfl⟩
+
+/-- "Cancelling is not failing": a leaf that ran on `c1`, was given `c2`, submitted and cancelled comes back not
+failed, showing `c2` next to the output of `c1`. /repo marks it failed. -/
+theorem C10_quiet_cancel_witness :
+    let ran : Node := .fn { Ex.own0 1 [Ex.c 2, Ex.dflt, Ex.dflt] with out := applyFn 5 [Ex.c 1, Ex.dflt, Ex.dflt],
+                                                                       running := true, hasParent := false } 5
+    let job := Job.leaf [Ex.c 2, Ex.dflt, Ex.dflt]
+    ((finishO Cfg.repaired Ex.nf true .cancelled job ran).map fun n =>
+        (n.own.failed, n.own.out == applyFn 5 n.own.ins)) = some (false, false) ∧
+    ((finishO Cfg.repaired Ex.nf false .cancelled job ran).map fun n => n.own.failed) = some true := by
+  decide
+
+/-- The inputs reach `on_run` as keyword arguments through the executor's `submit`; with `fn` positional-only
+(every executor's `submit(self, fn, /, *args, **kwargs)`) no input label whatsoever can collide … -/
+theorem C10_labels_bind (labels : List String) : bindsOk [] labels = true := by
+  simp [bindsOk]
+
+/-- … whereas a `submit(self, fn, *args, **kwargs)` captures an input labelled `fn`. -/
+theorem C10_label_capture_witness : bindsOk ["fn"] ["a", "fn"] = false := by decide
+
 end PwVerif.C10
 
 #print axioms PwVerif.C10.C10_transparent
@@ -388,3 +427,7 @@ end PwVerif.C10
 #print axioms PwVerif.C10.C10_running_has_job
 #print axioms PwVerif.C10.C10_refused_submission_witness
 #print axioms PwVerif.C10.C10_shutdown_built_witness
+#print axioms PwVerif.C10.C10_visible_or_equal
+#print axioms PwVerif.C10.C10_quiet_cancel_witness
+#print axioms PwVerif.C10.C10_labels_bind
+#print axioms PwVerif.C10.C10_label_capture_witness
